@@ -172,7 +172,7 @@ func runC04(c *Ctx) {
 	markerWrites := 0
 	var finParam = -1
 	nops := 0
-	for _, fn := range p.OwnFuncs {
+	for _, fn := range p.Subjects() {
 		if !IsProd(fn) {
 			continue
 		}
